@@ -29,22 +29,25 @@ type Ctx struct {
 	// Replay is the path given with --replay (empty otherwise).
 	Replay string
 
-	mu          sync.Mutex
-	evals       int64
-	distinct    map[[16]byte]struct{}
-	samples     []any
-	maxSamples  int
-	counters    map[string]int64
-	rule        string
-	assumptions []string
-	extra       map[string]any
-	viol        []violation
-	known       []knownFinding
-	knownHit    map[string]int
-	inconcl     []string
-	minNontriv  int
-	start       time.Time
-	root        string
+	mu       sync.Mutex
+	evals    int64
+	distinct map[[16]byte]struct{}
+	samples  []any
+	// keys of the first non-trivial cases: used as samples when a check body
+	// recorded none explicitly (evidence must always show actual cases)
+	fallbackSamples []any
+	maxSamples      int
+	counters        map[string]int64
+	rule            string
+	assumptions     []string
+	extra           map[string]any
+	viol            []violation
+	known           []knownFinding
+	knownHit        map[string]int
+	inconcl         []string
+	minNontriv      int
+	start           time.Time
+	root            string
 }
 
 type violation struct {
@@ -109,6 +112,13 @@ func (c *Ctx) Nontrivial(key string) {
 	copy(k[:], h[:16])
 	c.mu.Lock()
 	c.distinct[k] = struct{}{}
+	if len(c.fallbackSamples) < 4 && len(key) > 0 {
+		ks := key
+		if len(ks) > 600 {
+			ks = ks[:600]
+		}
+		c.fallbackSamples = append(c.fallbackSamples, map[string]any{"case": ks})
+	}
 	c.mu.Unlock()
 }
 
@@ -276,7 +286,10 @@ func (c *Ctx) finish(forced int) {
 		"monitor_counters":    c.counters,
 	}
 	if len(c.samples) == 0 {
-		cov["samples"] = []any{}
+		cov["samples"] = c.fallbackSamples
+		if len(c.fallbackSamples) == 0 {
+			cov["samples"] = []any{}
+		}
 	}
 	for k, v := range c.extra {
 		cov[k] = v
